@@ -25,11 +25,14 @@ def run(rep, tier, seed, budget):
     lemmas.index_read_lemma(ctx, rep)
     lemmas.ring_order_step(ctx, rep)
 
-    def level(N, alpha, keys):
+    def level(N, alpha, keys, prefix=()):
         def path(eng, col):
             table = ctx.sym_table(keys)
             ctx.reset(table)
-            toks = make_tokens("t", N, alpha)
+            toks = []
+            for j, alts in enumerate(prefix):
+                toks += [alts] if isinstance(alts, str) else make_tokens("p%d_" % j, 1, alts)
+            toks += make_tokens("t", N, alpha)
             r = dech.run_decoder(ctx, TokStr(toks))
             if r[0] == "exc":
                 col.count("exc")
@@ -128,14 +131,24 @@ def run(rep, tier, seed, budget):
         rep.add_part("differential nested branches: atom, branch, index, nested branch/ring, index, 5 free symbols (budgets that end inside an index)", res,
                      {"shape": "a b1 i1 b2 i2 r r r r r", "b1": 3, "i1": 4, "b2": 3, "i2": 3, "r": "5 symbols each", "table": "default"})
 
-    for tag, alpha, keys, n in plan:
+    # a later '.'-fragment: its first symbols are read at state X0 while the molecule already has atoms
+    LATER = (["[C]", "[=N]"], ".")
+    plan = [(t, a, k, n, ()) for t, a, k, n in plan]
+    if quick:
+        plan.insert(3, ("later fragment (atom(s) . N symbols)", A_FRAG, ["C", "N", "?"], 3, LATER))
+    else:
+        plan += [("later fragment (atom(s) . N symbols)", A_FRAG, ["C", "N", "?"], n, LATER) for n in (3, 4, 5)]
+    for tag, alpha, keys, n, prefix in plan:
         left = t_end - time.time()
         name = "differential %s N=%d: real decoder (read back by O-READ) vs O-DERIV, table free" % (tag, n)
         if left < 4:
             rep.parts.append({"name": name, "complete": False, "paths": 0, "bounds": {"N_symbols": n}, "claim": "not started (time budget)"})
             continue
-        res = driver.explore_parallel(level(n, alpha, keys), left * 0.6)
-        rep.add_part(name, res, {"alphabet": alpha, "N_symbols": n, "table": "keys %s free in 0..9" % keys})
+        res = driver.explore_parallel(level(n, alpha, keys, prefix), left * 0.6)
+        b = {"alphabet": alpha, "N_symbols": n, "table": "keys %s free in 0..9" % keys}
+        if prefix:
+            b["prefix"] = [list(x) if not isinstance(x, str) else x for x in prefix]
+        rep.add_part(name, res, b)
     rep.assumptions += ["O-DERIV (vf/oderiv.py) is written from docs/source/derivation.rst + CHANGELOG v2.0.0 and reproduces the 65 pinned examples of tests/test_specific_cases.py; document drift D1-D3 listed there follows the pinned tests",
                         "strings of exactly N symbols over the listed alphabets (well-formed by construction: M-TOK); capacities 0..9; 'by sampling beyond' is not part of this technique and is not claimed",
                         "the unclosed-bracket clause is decided by C08 (M-CHR) and C14"]
